@@ -614,7 +614,35 @@ pub fn c06_cases(c: &Corpus, quick: bool) -> Vec<IoRun> {
             }
         }
     }
-    // an element that came through a sampler is then serialised and deserialised (deserialiser clause)
-    let _ = rd::identity();
+    // uncompressed deserialisers: x || y of valid points, of their translates by the points of order 4 and 2,
+    // of the points of order 4 themselves, and short / long strings
+    {
+        let f = fq();
+        let xy = |p: &rd::Pt| {
+            let mut b = f.to_le(&p.x);
+            b.extend_from_slice(&f.to_le(&p.y));
+            b
+        };
+        let mut strings: Vec<Vec<u8>> = vec![xy(&rd::t4()), xy(&rd::neg(&rd::t4())), xy(&rd::t2()), xy(&rd::identity()), vec![], vec![0u8; 64], vec![0xffu8; 64]];
+        for v in c.valid.iter().take(if quick { 8 } else { 40 }) {
+            let p = rd::decode(v).unwrap();
+            strings.push(xy(&p));
+            strings.push(xy(&rd::add(&p, &rd::t4())));
+            strings.push(xy(&rd::add(&p, &rd::t2())));
+            strings.push(v.to_vec());
+        }
+        for b in strings {
+            for as_ in [ElemAs::Element, ElemAs::Affine, ElemAs::Encoding] {
+                out.push(IoRun {
+                    uncompressed: vec![Uncompressed {
+                        bytes: hex(&b),
+                        as_,
+                        rplan: IoPlan::default(),
+                    }],
+                    ..Default::default()
+                });
+            }
+        }
+    }
     out
 }
